@@ -37,6 +37,11 @@ class Seam:
         self.on_event = None  # callback(rec) for property-level observation
         self.installed = False
         self.events = []
+        self.mtimes = {}  # absolute path -> modification time on the simulated wall clock
+        self.clock = None  # the simulated wall clock (set by the front-end run); None = real time stamps are left alone
+        self.mtime_gran = 0  # time-stamp granularity of the simulated file system in seconds (0 = nanoseconds, always distinct)
+        self.t_attach = 0.0
+        self._mt_k = 0
 
     # ---- per run
     def attach(self, sim, bufsize=8192):
@@ -50,10 +55,15 @@ class Seam:
         self.separate_hosts = False
         self.on_event = None
         self.events = []
+        self.mtimes = {}
+        self.clock = None
+        self.mtime_gran = 0
+        self._mt_k = 0
 
     def detach(self):
         self.enabled = False
         self.sim = None
+        self.clock = None
         self.on_event = None
         self.crash_at = []
         self.fail_read = None
@@ -168,9 +178,64 @@ class Seam:
         norm = "/".join(("<sid>" if len(x) == 64 else x) for x in path)
         sim.log.append(("disk", rec["role"], rec["k"], rec["kind"], norm, rec["n"], rec.get("crash")))
         rec["applied"] = applied
+        if applied and self.clock is not None:
+            self._stamp(rec)
         self.events.append(rec)
         if self.on_event is not None:
             self.on_event(rec)
+
+    # ---- time stamps: the simulated file system stamps files from the simulated wall clock, at the run's granularity
+    def now_stamp(self):
+        t = self.clock()
+        g = self.mtime_gran
+        if g:
+            return (t // g) * g
+        self._mt_k += 1
+        return t + self._mt_k * 1e-7  # a fine-grained file system: two modifications never carry the same stamp
+
+    def _stamp(self, rec):
+        kind = rec["kind"]
+        path = os.path.join(self.root, rec["path"])
+        if kind in ("replace", "rename"):
+            return  # done by the wrapper, which knows the source
+        now = self.now_stamp()
+        if kind in ("write", "ftruncate", "truncate", "mkdir") or "trunc" in kind or "creat" in kind:
+            self.mtimes[path] = now
+        if kind in ("unlink", "rmdir"):
+            self.mtimes.pop(path, None)
+        if kind in ("mkdir", "unlink", "rmdir") or "creat" in kind:
+            self.mtimes[os.path.dirname(path)] = now
+
+    def _moved(self, src, dst):
+        if self.clock is None:
+            return
+        src, dst = os.path.abspath(os.fspath(src)), os.path.abspath(os.fspath(dst))
+        now = self.now_stamp()
+        pre = src + os.sep
+        for k in [k for k in self.mtimes if k == src or k.startswith(pre)]:
+            self.mtimes[dst + k[len(src):]] = self.mtimes.pop(k)  # a rename keeps the time stamp of what is moved
+        self.mtimes.setdefault(dst, self.t_attach)
+        self.mtimes[os.path.dirname(src)] = now
+        self.mtimes[os.path.dirname(dst)] = now
+
+    def _restamp(self, path, st):
+        """stat result with the simulated modification time"""
+        try:
+            ap = os.path.abspath(os.fspath(path))
+        except TypeError:
+            return st
+        if isinstance(ap, bytes):
+            ap = ap.decode()
+        if not (ap.startswith(self.root + os.sep) and not ap.startswith(self.logdir)):
+            return st
+        t = self.mtimes.get(ap, self.t_attach)
+        cls, (tup, extra) = st.__reduce__()
+        tup = list(tup)
+        tup[8] = int(t)
+        extra = dict(extra)
+        extra["st_mtime"] = float(t)
+        extra["st_mtime_ns"] = int(round(t * 1e9))
+        return cls(tuple(tup), extra)
 
     # ---- installation (once per interpreter)
     def install(self):
@@ -284,6 +349,7 @@ class Seam:
                 if seam.inscope(dst) or seam.inscope(src):
                     rec = seam.event(name, dst)
                     r = real(src, dst, *a, **kw)
+                    seam._moved(src, dst)
                     seam.after(rec)
                     return r
                 return real(src, dst, *a, **kw)
@@ -299,12 +365,18 @@ class Seam:
         def s_stat(path, *a, **kw):
             if seam.separate_hosts and not isinstance(path, int) and seam.hidden(path):
                 raise FileNotFoundError(2, "No such file or directory (other host)", os.fspath(path))
-            return real_stat(path, *a, **kw)
+            st = real_stat(path, *a, **kw)
+            if seam.clock is not None and seam.enabled and not isinstance(path, int):
+                return seam._restamp(path, st)
+            return st
 
         def s_lstat(path, *a, **kw):
             if seam.separate_hosts and seam.hidden(path):
                 raise FileNotFoundError(2, "No such file or directory (other host)", os.fspath(path))
-            return real_lstat(path, *a, **kw)
+            st = real_lstat(path, *a, **kw)
+            if seam.clock is not None and seam.enabled:
+                return seam._restamp(path, st)
+            return st
 
         def s_listdir(path="."):
             names = real_listdir(path)
